@@ -1401,12 +1401,14 @@ protected:
         return finalCRLF + 2;
       }
 
-      // Skip chunk data + trailing \r\n
-      pos += chunkSize + 2;
-      if (pos > data.length())
+      // Skip chunk data + trailing \r\n. Subtraction-based bounds: pos + chunkSize + 2
+      // wraps for a chunk size near SIZE_MAX (e.g. "FFFFFFFFFFFFFFEC"), which used to
+      // move pos back onto the same chunk-size line and spin this loop forever.
+      if (chunkSize > data.length() - pos || data.length() - pos - chunkSize < 2)
       {
         return std::string::npos; // Need more data
       }
+      pos += chunkSize + 2;
     }
 
     return std::string::npos;
